@@ -97,6 +97,16 @@ type Reg struct {
 	// NestedInChild: the nested resolutions are issued on a fresh child scope the constructor creates
 	// from its injected Scope / Provider (and closes again), e.g. a warm-up step.
 	NestedInChild bool `json:"nested_in_child,omitempty"`
+	// NestedAsync: the nested resolutions are issued by a goroutine the constructor starts and does
+	// not wait for (a background warm-up worker that was handed the injected Provider / Scope).
+	NestedAsync bool `json:"nested_async,omitempty"`
+	// CloseJoins: the instances' Close method first waits until no resolution / scope creation issued
+	// by another goroutine of the harness is in flight (a worker whose Close joins its background
+	// job, the job being whatever the other harness threads are doing right now).
+	CloseJoins bool `json:"close_joins,omitempty"`
+	// RemoveFirst: identities removed from the collection (Remove / RemoveKeyed) right before this
+	// registration is added - the "override one service" pattern.
+	RemoveFirst []Dep `json:"remove_first,omitempty"`
 	// CloseScope: the instances remember the Scope they were injected with and their Close method
 	// closes that scope again (a unit of work forwarding Close to its scope); the result of that
 	// inner Close is recorded.
@@ -201,6 +211,19 @@ func (i *Inst) Label() string {
 
 func (i *Inst) doClose() error {
 	vsched.Yield("close")
+	if r := i.w.regByID(i.Reg); r != nil && r.CloseJoins {
+		me := vsched.ThreadID()
+		vsched.WaitUntil("close-joins", func() bool {
+			i.w.mu.Lock()
+			defer i.w.mu.Unlock()
+			for tid, n := range i.w.inflight {
+				if tid != me && n > 0 {
+					return false
+				}
+			}
+			return true
+		})
+	}
 	if i.reclose != nil {
 		err := i.reclose.Close()
 		i.w.mu.Lock()
@@ -267,6 +290,7 @@ type Event struct {
 // World is the per-execution recorder and fault plan.
 type World struct {
 	mu        sync.Mutex
+	inflight  map[int]int // thread -> resolutions / scope creations in flight
 	Spec      *Spec
 	Insts     []*Inst
 	Calls     []*Call
@@ -557,7 +581,35 @@ func (w *World) Body(r *Reg, ft reflect.Type) func(args []reflect.Value) []refle
 					}
 				}
 			}
-			if sc != nil {
+			if sc != nil && r.NestedAsync {
+				sc0 := sc
+				w.mu.Unlock()
+				vsched.GoNamed("locator", func() {
+					tid := vsched.ThreadID()
+					w.mu.Lock()
+					if viaProvider {
+						w.via[tid] = "provider"
+					}
+					w.mu.Unlock()
+					for _, nd := range r.Nested {
+						var v any
+						var err error
+						if nd.Key != "" {
+							v, err = sc0.GetKeyed(TypeOf(nd.T), nd.Key)
+						} else {
+							v, err = sc0.Get(TypeOf(nd.T))
+						}
+						w.mu.Lock()
+						if err != nil {
+							call.Nested = append(call.Nested, Arg{Kind: "err:" + ClassOf(err), Dep: nd})
+						} else {
+							call.Nested = append(call.Nested, decodeArg(reflect.ValueOf(v), nd))
+						}
+						w.mu.Unlock()
+					}
+				})
+				w.mu.Lock()
+			} else if sc != nil {
 				tid := vsched.ThreadID()
 				prevVia := w.via[tid]
 				if viaProvider {
@@ -772,9 +824,42 @@ func (w *World) Add(c godi.Collection, r *Reg) error {
 
 // Apply registers every registration of the spec, in order, and returns the
 // per-registration errors.
+func (w *World) regByID(id int) *Reg {
+	for i := range w.Spec.Regs {
+		if w.Spec.Regs[i].ID == id {
+			return &w.Spec.Regs[i]
+		}
+	}
+	return nil
+}
+
+// OpBegin / OpEnd bracket a resolution or scope creation issued by a harness thread
+// (see Reg.CloseJoins).
+func (w *World) OpBegin() {
+	w.mu.Lock()
+	if w.inflight == nil {
+		w.inflight = map[int]int{}
+	}
+	w.inflight[vsched.ThreadID()]++
+	w.mu.Unlock()
+}
+
+func (w *World) OpEnd() {
+	w.mu.Lock()
+	w.inflight[vsched.ThreadID()]--
+	w.mu.Unlock()
+}
+
 func (w *World) Apply(c godi.Collection) []error {
 	errs := make([]error, len(w.Spec.Regs))
 	for i := range w.Spec.Regs {
+		for _, d := range w.Spec.Regs[i].RemoveFirst {
+			if d.Key != "" {
+				c.RemoveKeyed(TypeOf(d.T), d.Key)
+			} else {
+				c.Remove(TypeOf(d.T))
+			}
+		}
 		errs[i] = w.Add(c, &w.Spec.Regs[i])
 	}
 	return errs
